@@ -9,6 +9,8 @@ cost_specification setter.
       objects owned by the NAS model.
  R18e an internal forward pass triggered by an observer runs after eval() with no train(...)
       in between (BatchNorm statistics are not updated by export).
+ R18f (= C12 R12b) no registered cost function writes its spec or updates a spec value in
+      place (the values alias buffers of the layers).
  R18c attributes that matter: no store (attribute, dictionary key, vars() update) into an
       object owned by the NAS model unless (i) nothing ever reads that name, (ii) every
       reader rewrites the key first (kill-before-read), or (iii) the observer saves and
@@ -319,12 +321,15 @@ def run(ctx):
                'the cost-function map is not recomputed from the new specification: switching the '
                'specification and back does not restore the same cost', where(s))
     ctx.floor('R18d', 'cost_specification setters', n, 3)
+    # the spec entries handed to the cost functions alias live state (features calculators
+    # return their buffers): no registered cost function writes its spec or updates one of its
+    # values in place (shared with C12 R12b)
+    from . import c12
+    c12.r12b(ctx, rule='R18f')
     ctx.count('resolved call instantiations', E.resolved_calls)
     ctx.count('unresolved repository calls', len(E.unresolved))
     ctx.assume('torch.fx.GraphModule(root, graph) is a fresh container sharing the leaf '
                'sub-modules of root; tracer.trace builds a fresh graph')
-    ctx.assume('registered cost functions do not write into the spec they receive (checked by '
-               'C12 R12b)')
 
 
 def update_keys(ctx, e: Effect) -> Optional[Set[str]]:
